@@ -425,6 +425,54 @@ def shard(rec, idx, nshards, seed, tier):
         core.run_given(st2.tuples(st2.integers(0, 10 ** 6), expr, st2.integers(0, 3)),
                        body2, seed=seed * 1000 + idx + 500,
                        max_examples=120 if tier == 'quick' else 3000)
+    if tier == 'thorough' or os.environ.get('VERIF_FUZZ_RUNS'):
+        _fuzz_stage(rec, idx, nshards, seed)
+
+
+def _fuzz_stage(rec, idx, nshards, seed):
+    """thorough tier: coverage-guided token-level fuzzing (vp_harness/fuzz_c01.py) in a
+    subprocess; its failure buckets are merged like any other violation"""
+    import json
+    import subprocess
+    import sys
+    try:
+        import atheris  # noqa: F401
+    except Exception:
+        rec.skip('fuzz-stage-unavailable:atheris-not-installed')
+        return
+    d = core.VERIF / '.cache' / 'fuzz'
+    d.mkdir(parents=True, exist_ok=True)
+    out = d / f'c01-{os.getpid()}-{idx}.json'
+    envv = dict(os.environ)
+    envv.pop('LD_PRELOAD', None)          # libFuzzer manages its own memory
+    runs = int(os.environ.get('VERIF_FUZZ_RUNS', '15000'))
+    subprocess.run([sys.executable, '-m', 'vp_harness.fuzz_c01', str(out), str(seed * 1000 + idx),
+                    str(runs), str(idx), str(nshards)],
+                   cwd=str(core.VERIF), env=envv, stdout=subprocess.DEVNULL, stderr=subprocess.DEVNULL)
+    try:
+        res = json.loads(out.read_text())
+    except Exception:
+        rec.skip('fuzz-stage-produced-no-result')
+        return
+    finally:
+        import shutil
+        shutil.rmtree(str(out) + '.corpus', ignore_errors=True)
+        for f in core.VERIF.glob('crash-*'):
+            f.unlink()
+    try:
+        out.unlink()
+    except OSError:
+        pass
+    st = res['stats']
+    rec.evaluations += st['accepted']
+    rec.classes['origin:fuzz'] += st['accepted']
+    rec.skipped['rejected-input:fuzz'] += st['execs'] - st['accepted']
+    rec.extra['fuzz_execs'] = rec.extra.get('fuzz_execs', 0) + st['execs']
+    rec.extra['fuzz_distinct_accepted_asts'] = rec.extra.get('fuzz_distinct_accepted_asts', 0) + \
+        res.get('distinct_accepted', 0)
+    rec.nontrivial_enum += res.get('distinct_accepted', 0)
+    for sig, b in res['buckets'].items():
+        rec.violation(sig, b['case'], b['detail'])
 
 
 def _holes(corpus, idx, nshards):
